@@ -220,7 +220,9 @@ CHECKS = {
             "members of vmapped (and jit(vmap)) batches with different accept/reject scripts and each member must reproduce its own "
             "behaviour; operation logs of the real solver code on the tracing SSM must be identical with and without jit and are "
             "validated by TLC; real solves with nested dict / tuple / namedtuple / rank-3 states, permuted components, jit and vmap "
-            "(members needing 4 to 370 steps) are compared with the plain solve, including output structure and leading time axis."
+            "(members needing 4 to 370 steps) are compared with the plain solve, including output structure and leading time axis; "
+            "the batched solution object is read outside vmap, one compiled solve is applied to differently structured states, and "
+            "vmapped terminal-value solves run in a child process under a watchdog (a batched loop that never ends is a verdict)."
         ),
         design_ref="DESIGN.md 4 (C15)",
         note="Conformance sampling over execution modes, not a proof about JAX's transformations.",
